@@ -173,7 +173,10 @@ impl<K: HKey> Store<K> {
     }
 
     pub fn open(&mut self) -> Value {
-        self.open_with(&self.cfg.clone())
+        crate::watchdog::arm("{\"op\":\"open\"}", 120);
+        let r = self.open_with(&self.cfg.clone());
+        crate::watchdog::disarm();
+        r
     }
 
     pub fn open_with(&mut self, cfg: &Cfg) -> Value {
@@ -201,6 +204,14 @@ impl<K: HKey> Store<K> {
 
     /// Execute one user-level operation. `sel` selects the chunking of a put.
     pub fn exec(&mut self, op: &Value, sel: usize) -> Value {
+        // a call that does not come back within 60 s is reported by the watchdog (exit code 3), not waited for
+        crate::watchdog::arm(&op.to_string(), 60);
+        let r = self.exec_inner(op, sel);
+        crate::watchdog::disarm();
+        r
+    }
+
+    fn exec_inner(&mut self, op: &Value, sel: usize) -> Value {
         let name = op["op"].as_str().unwrap_or("");
         if name == "open" {
             return self.open();
@@ -308,6 +319,7 @@ impl<K: HKey> Store<K> {
 
     /// `lite` leaves out the bulky read results (get_reader, get_size, get_range, range iteration).
     pub fn observe_opt(&self, lite: bool) -> Value {
+        let _armed = crate::watchdog::Armed::new("{\"op\":\"observe (reads after the previous operation)\"}", 60);
         let u = &self.u;
         let nk = NK;
         let mut idx = vec![json!("-"); nk];
